@@ -36,6 +36,10 @@ def add_base(g, rng):
         for _ in range(rng.randint(1, 2)):
             n = rng.choice(names)
             repl.extend(n if isinstance(n, tuple) else [n])
+        if len(g.base) == 0 and rng.random() < 0.7:
+            # the same variable twice in one base structure (selection is per position, not per variable)
+            rep = rng.choice(['D1', 'O1'])
+            repl = [rep, rng.choice(['O1', 'D1']), rep]
         g.base.append({'prob': float(p), 'replacements': repl})
     # group probabilities such that prob * len(values) sums to 1 per variable (as the trainer writes them)
     for t, groups in g.grammar.items():
